@@ -133,9 +133,11 @@ type plainListener struct {
 	events []plainEvent
 }
 
-func (l *plainListener) Notify(w *ecs.World, e ecs.EntityEvent) { l.events = append(l.events, toPlain(&e)) }
-func (l *plainListener) Subscriptions() event.Subscription      { return l.subs }
-func (l *plainListener) Components() *ecs.Mask                  { return l.comps }
+func (l *plainListener) Notify(w *ecs.World, e ecs.EntityEvent) {
+	l.events = append(l.events, toPlain(&e))
+}
+func (l *plainListener) Subscriptions() event.Subscription { return l.subs }
+func (l *plainListener) Components() *ecs.Mask             { return l.comps }
 
 func (r *SubRun) replayBare() *Run {
 	f := NewRun(r.bare)
